@@ -8,7 +8,7 @@ sys.path.insert(0, os.path.join(HERE, '..', '..', 'tools'))
 import common
 import native
 import cxx2c
-from cxx2c import Rewriter, slice_block, ExtractionBreak, load
+from cxx2c import Rewriter, slice_block, tag_loops, ExtractionBreak, load
 from prove import Job
 
 FE = 'src/tbbmalloc/frontend.cpp'
@@ -122,12 +122,444 @@ def extract_remap(ctx, sliced, fired):
     t = rw.std(t)
     common.write(ctx, 'remap.inc', pre + '\n'.join(out) + '\n')
     common.write(ctx, 'remap_frag.inc', t + '\n')
+    # MemoryPool::getFromLLOCache: the size computation and its wrapped-size guard (fragment between `size_t headersSize =` and `if (tls) {`)
+    s = slice_between(FE, r'size_t headersSize = sizeof\(LargeMemoryBlock\)\+sizeof\(LargeObjectHdr\);\s*size_t allocationSize', r'if \(tls\) \{')
+    sliced.append('%s:%d MemoryPool::getFromLLOCache (size computation and wrapped-size guard)' % (FE, s.line))
+    t = rw.sub(s.text, r'LargeObjectCache::alignToBin\(', 'LargeObjectCache_alignToBin(', 1, 1, name='ns-strip')
+    t = rw.sub(t, r'sizeof\(LargeMemoryBlock\)', 'SIZEOF_LargeMemoryBlock', 1, 1, name='sizeof -> symbolic constant')
+    t = rw.sub(t, r'sizeof\(LargeObjectHdr\)', 'SIZEOF_LargeObjectHdr', 1, 1, name='sizeof -> symbolic constant')
+    t = malloc_asserts(rw, t)
+    t = rw.std(t)
+    common.write(ctx, 'lloc_frag.inc', t + '\n')
     fired['remap'] = dict(rw.fired, **f2)
+
+
+# --------------------------------------------------------------------------------------------------------------------
+# backend: free-block search (getFromBin), block splitting (splitBlock), out-of-memory ladder (genericGetBlock/askMemFromOS)
+# --------------------------------------------------------------------------------------------------------------------
+TI = 'src/tbbmalloc/tbbmalloc_internal.h'
+BH = 'src/tbbmalloc/backend.h'
+FB_CLASS = r'class FreeBlock : BlockMutexes \{'
+BMAC = {'__TBB_MALLOC_BACKEND_STAT': 0}
+
+
+def member_calls(rw, text, names, prefix, minc=0, name=None):
+    """`obj->m(args)` -> `<prefix>m(obj, args)` where obj is an identifier or a call expression `f(...)` (chains are resolved left to right)"""
+    total = 0
+    rx = re.compile(r'->\s*(%s)\s*\(' % '|'.join(names))
+    for _ in range(50):
+        m = rx.search(text)
+        if not m:
+            break
+        i = m.start()
+        j = i - 1
+        while j >= 0 and text[j].isspace():
+            j -= 1
+        if text[j] == ')':
+            d = 0
+            while j >= 0:
+                if text[j] == ')':
+                    d += 1
+                elif text[j] == '(':
+                    d -= 1
+                    if d == 0:
+                        break
+                j -= 1
+            j -= 1
+        while j >= 0 and (text[j].isalnum() or text[j] == '_'):
+            j -= 1
+        obj = text[j + 1:i].strip()
+        if not obj:
+            raise ExtractionBreak('%s: cannot find the object of ->%s(' % (rw.name, m.group(1)))
+        o = m.end() - 1
+        c = cxx2c.match_close(text, o, '(', ')')
+        args = [a for a in cxx2c.split_args(text[o + 1:c]) if a != '']
+        text = text[:j + 1] + '%s%s(%s)' % (prefix, m.group(1), ', '.join([obj] + args)) + text[c + 1:]
+        total += 1
+    rw._rec(name or 'member-call obj->m(..) -> %sm(obj, ..)' % prefix, total, minc)
+    return text
+
+
+def malloc_asserts(rw, text, minc=0):
+    """MALLOC_ASSERT(c, msg) -> VERIF_ASSERT(c, "...") (proof obligation); messages may contain commas"""
+    def fn(m, a):
+        msg = ','.join(a[1:]).strip()
+        if not msg.startswith('"'):
+            msg = '"%s"' % a[0].replace('"', "'").replace('\\', '')
+        return 'VERIF_ASSERT(%s, %s)' % (a[0], msg.replace(',', ' '))
+    return rw.call(text, r'\bMALLOC_ASSERT', fn, minc, name='assert')
+
+
+def const_define(rw, sliced, rel, name, out):
+    s = cxx2c.slice_stmt(rel, r'const (?:uint32_t|uintptr_t|size_t) %s\s*=' % name)
+    sliced.append('%s:%d %s' % (rel, s.line, name))
+    m = re.match(r'const (uint32_t|uintptr_t|size_t) (\w+)\s*=\s*(.*);', s.text, re.S)
+    if not m:
+        raise ExtractionBreak('cannot parse constant %s' % name)
+    out.append('#define %s ((%s)(%s))' % (m.group(2), m.group(1), m.group(3).strip()))   # const-global -> #define (a C `const` is nondet in CBMC)
+    rw.fired['const-global->#define'] = rw.fired.get('const-global->#define', 0) + 1
+
+
+def extract_freeblock(ctx, sliced, fired):
+    """fb.inc: slabSize, GuardedSize::State, struct GuardedSize / FreeBlock (members and their ORDER harvested from the class text), alignUp<FreeBlock*>,
+    isAligned, and the FreeBlock methods rightNeig / initHeader / setMeFree / trySetMeUsed / setLeftFree / trySetLeftUsed / tryLockBlock / markBlocks.
+    GuardedSize::tryLock / unlock / initLocked are NOT sliced here: the harness supplies their atomic specification (trusted; job lock.* is the place to prove it)."""
+    rw = Rewriter('freeblock')
+    out = ['typedef struct FreeBlock FreeBlock; typedef struct GuardedSize GuardedSize;']
+    const_define(rw, sliced, TI, 'slabSize', out)
+    s = slice_block(BE, r'enum State \{', within=r'class GuardedSize : tbb::detail::no_copy \{')
+    sliced.append('%s:%d GuardedSize::State' % (BE, s.line))
+    body = s.text[s.text.index('{') + 1:s.text.rindex('}')]
+    body, n = re.subn(r'\b([A-Z][A-Z_]+)\b', r'GuardedSize_\1', body)
+    rw._rec('enum State -> GuardedSize_<name>', n, 5)
+    out.append('enum GuardedSize_State {%s};' % body)
+    gs = cxx2c.CClass(BE, r'class GuardedSize : tbb::detail::no_copy \{', 'GuardedSize', rw=rw)
+    gs.harvest_members(['value'])
+    out.append(gs.struct_decl())
+    bm = cxx2c.CClass(BE, r'class BlockMutexes \{', 'BlockMutexes', rw=rw)
+    bm.harvest_members(['myL', 'leftL'])
+    fb = cxx2c.CClass(BE, FB_CLASS, 'FreeBlock', rw=rw)
+    fb.harvest_members(['prev', 'next', 'nextToFree', 'sizeTmp', 'myBin', 'slabAligned', 'blockInBin'])
+    fb.members = bm.members + fb.members        # base class sub-object first
+    out.append(fb.struct_decl())
+    s = cxx2c.slice_stmt(BE, r'const size_t FreeBlock::minBlockSize = ')
+    sliced.append('%s:%d FreeBlock::minBlockSize' % (BE, s.line))
+    out.append(rw.sub(s.text, r'const size_t FreeBlock::minBlockSize = (.*);', r'#define FreeBlock_minBlockSize ((size_t)(\1))', 1, 1, name='const-global->#define'))
+    s = slice_block(SU, r'static inline T alignUp\s*\(T arg, uintptr_t alignment\)')
+    sliced.append('%s:%d alignUp<FreeBlock*>' % (SU, s.line))
+    t = rw.sub(s.text, r'static inline T alignUp\s*\(T arg, uintptr_t alignment\)', 'static inline FreeBlock* alignUp_FreeBlock(FreeBlock* arg, uintptr_t alignment)', 1, 1, name='bind-template(T:=FreeBlock*)')
+    t = rw.sub(t, r'\bT\(', '(FreeBlock*)(', 1, 1, name='bind-template(T:=FreeBlock*)')
+    out.append(t)
+    s = slice_block(UT, r'(?:constexpr )?bool is_aligned\(T\* pointer, std::uintptr_t alignment\)')
+    sliced.append('%s:%d is_aligned' % (UT, s.line))
+    t = rw.sub(s.text, r'(?:constexpr )?bool is_aligned\(T\* pointer, std::uintptr_t alignment\)', 'static inline bool isAligned(const void* pointer, uintptr_t alignment)', 1, 1, name='sig (Customize.h isAligned forwards to it) + bind-template(T:=void)')
+    if not re.search(r'static inline bool isAligned\(T\* arg, uintptr_t alignment\) \{\s*return tbb::detail::is_aligned\(arg,alignment\);', load(CU)):
+        raise ExtractionBreak('Customize.h isAligned no longer forwards to tbb::detail::is_aligned')
+    t = rw.casts(t, 1)
+    out.append(rw.std(t))
+    for name, sig, csig in (
+            ('rightNeig', r'FreeBlock \*rightNeig\(size_t sz\) const', 'static FreeBlock *FreeBlock_rightNeig(FreeBlock *self, size_t sz)'),
+            ('initHeader', r'void initHeader\(\)', 'static void FreeBlock_initHeader(FreeBlock *self)'),
+            ('setMeFree', r'void setMeFree\(size_t size\)', 'static void FreeBlock_setMeFree(FreeBlock *self, size_t size)'),
+            ('trySetMeUsed', r'size_t trySetMeUsed\(GuardedSize::State s\)', 'static size_t FreeBlock_trySetMeUsed(FreeBlock *self, int s)'),
+            ('setLeftFree', r'void setLeftFree\(size_t sz\)', 'static void FreeBlock_setLeftFree(FreeBlock *self, size_t sz)'),
+            ('trySetLeftUsed', r'size_t trySetLeftUsed\(GuardedSize::State s\)', 'static size_t FreeBlock_trySetLeftUsed(FreeBlock *self, int s)'),
+            ('tryLockBlock', r'size_t tryLockBlock\(\)', 'static size_t FreeBlock_tryLockBlock(FreeBlock *self)'),
+            ('markBlocks', r'static void markBlocks\(FreeBlock \*fBlock, int num, size_t size\)', 'static void FreeBlock_markBlocks(FreeBlock *fBlock, int num, size_t size)')):
+        s = slice_block(BE, sig, within=FB_CLASS)
+        sliced.append('%s:%d FreeBlock::%s' % (BE, s.line, name))
+        t = rw.sub(s.text, sig, csig, 1, 1, name='sig')
+        t = rw.sub(t, r'\b(myL|leftL)\.(initLocked|unlock|tryLock)\(\s*', r'GuardedSize_\2(&self->\1, ', 0, name='member-object call x.m(..) -> GuardedSize_m(&self->x, ..)')
+        t = rw.sub(t, r', \)', ')', 0, name='member-object call (no arguments)')
+        t = rw.methods(t, ['trySetMeUsed', 'rightNeig', 'setMeFree'], 'FreeBlock_', 0)
+        t = member_calls(rw, t, ['trySetLeftUsed', 'initHeader'], 'FreeBlock_', 0)
+        t = rw.sub(t, r'\bthis\b', 'self', 0, name='this')
+        t = rw.sub(t, r'GuardedSize::', 'GuardedSize_', 0, name='ns-strip')
+        t = malloc_asserts(rw, t)
+        if name == 'markBlocks':
+            t = tag_loops(t, 'markBlocks', rw, expect=1)
+        out.append(rw.std(t))
+    common.write(ctx, 'fb.inc', '\n'.join(out) + '\n')
+    fired['freeblock'] = rw.fired
+
+
+def extract_getfrombin(ctx, sliced, fired):
+    """Backend::IndexedBins::getFromBin with Bin::empty, BackendSync::blockConsumed"""
+    rw = Rewriter('getFromBin')
+    out = []
+    s = slice_block(BH, r'bool empty\(\) const', within=r'struct Bin \{')
+    sliced.append('%s:%d Backend::Bin::empty' % (BH, s.line))
+    t = rw.sub(s.text, r'bool empty\(\) const', 'static bool Bin_empty(Bin *self)', 1, 1, name='sig')
+    t = rw.fields(t, ['head'], 1)
+    t = rw.atomics(t, ['head'], 1)
+    t = rw.number_sites(t, 'empty', by_kind=True)
+    out.append(t)
+    s = slice_block(BH, r'void blockConsumed\(\)', within=r'class BackendSync \{')
+    sliced.append('%s:%d BackendSync::blockConsumed' % (BH, s.line))
+    t = rw.sub(s.text, r'void blockConsumed\(\)', 'static void BackendSync_blockConsumed(BackendSync *self)', 1, 1, name='sig')
+    t = rw.fields(t, ['inFlyBlocks'], 0)
+    t = rw.atomics(t, ['inFlyBlocks'], 0)
+    out.append(t)
+    sig = r'FreeBlock \*Backend::IndexedBins::getFromBin\(int binIdx, BackendSync \*sync, size_t size,\s*bool needAlignedRes, bool alignedBin,\s*bool wait, int \*binLocked\)'
+    s = slice_block(BE, sig)
+    sliced.append('%s:%d Backend::IndexedBins::getFromBin' % (BE, s.line))
+    t = rw.sub(s.text, sig, 'FreeBlock *IndexedBins_getFromBin(IndexedBins *self, int binIdx, BackendSync *sync, size_t size, bool needAlignedRes, bool alignedBin, bool wait, int *binLocked)', 1, 1, name='sig')
+    t = rw.sub(t, r'\btry_next:', 'try_next: ;', 1, 1, name='label in front of a declaration gets an empty statement (C grammar)')
+    t = rw.fields(t, ['freeBins'], 1)
+    t = rw.sub(t, r'(self->freeBins\[binIdx\])\.empty\(\)', r'Bin_empty(&\1)', 0, name='method')
+    t = rw.sub(t, r'\bb->empty\(\)', 'Bin_empty(b)', 1, name='method')
+    t = rw.scoped_locks(t, r'MallocMutex::scoped_lock scopedLock\(([^;]*)\);', 1, 1, lock='TRYLOCK_MUTEX', unlock='UNLOCK_IF_TAKEN')
+    t = rw.sub(t, r'goto try_next;', '{ UNLOCK_IF_TAKEN(b->tLock, wait, &locked); RETRY_FROM(try_next); }', 0, name='goto out of the scoped_lock scope: destructor made explicit; the backward jump becomes RETRY_FROM (restart state is a proof obligation)')
+    t = rw.atomics(t, ['head'], 0)
+    t = rw.number_sites(t, 'getFromBin', by_kind=True)
+    t = rw.sub(t, r'\bcurr->next\b', 'BIN_NEXT(curr)', 0, name='list link read -> BIN_NEXT (the bin is an arbitrary sequence of candidates)')
+    t = rw.sub(t, r'\balignUp\(curr, slabSize\)', 'alignUp_FreeBlock(curr, slabSize)', 0, name='bind-template(T:=FreeBlock*)')
+    t = rw.sub(t, r'\bsync->blockConsumed\(\)', 'BackendSync_blockConsumed(sync)', 0, name='method')
+    t = rw.sub(t, r'\bb->removeBlock\(', 'STUB_Bin_removeBlock(b, ', 0, name='callee stub')
+    t = rw.sub(t, r'\bbitMask\.set\(', 'STUB_bitMask_set(self, ', 0, name='callee stub')
+    t = member_calls(rw, t, ['tryLockBlock', 'setMeFree', 'rightNeig', 'setLeftFree'], 'FreeBlock_', 0)
+    t = rw.sub(t, r'\b(\w+)->sizeTmp = ([^;]*);', r'FB_WR_sizeTmp(\1, \2);', 0, name='block field write -> FB_WR_sizeTmp (blocks are addresses in the harness)')
+    t = rw.sub(t, r'FreeBlock::minBlockSize', 'FreeBlock_minBlockSize', 0, name='ns-strip')
+    t = malloc_asserts(rw, t)
+    t = rw.std(t)
+    t = tag_loops(t, 'getFromBin', rw, expect=1)
+    out.append(t)
+    common.write(ctx, 'getfrombin.inc', '\n'.join(out) + '\n')
+    fired['getFromBin'] = rw.fired
+
+
+def extract_split(ctx, sliced, fired):
+    """Backend::splitBlock with Backend::toAlignedBin, FreeBlock::markBlocks/initHeader (fb.inc); coalescAndPut is a recording stub"""
+    rw = Rewriter('splitBlock')
+    out = []
+    m = re.search(r'static const int numOfSlabAllocOnMiss = (\d+);', load(BH))
+    if not m:
+        raise ExtractionBreak('%s: constant numOfSlabAllocOnMiss not found' % BH)
+    out.append('#define numOfSlabAllocOnMiss (%s)' % m.group(1))
+    rw.fired['const-global->#define'] = 1
+    s = slice_block(BH, r'static bool toAlignedBin\(FreeBlock \*block, size_t size\)')
+    sliced.append('%s:%d Backend::toAlignedBin' % (BH, s.line))
+    out.append(rw.sub(s.text, r'static bool toAlignedBin\(FreeBlock \*block, size_t size\)', 'static bool Backend_toAlignedBin(FreeBlock *block, size_t size)', 1, 1, name='sig'))
+    sig = r'FreeBlock \*Backend::splitBlock\(FreeBlock \*fBlock, int num, size_t size, bool blockIsAligned, bool needAlignedBlock\)'
+    s = slice_block(BE, sig)
+    sliced.append('%s:%d Backend::splitBlock' % (BE, s.line))
+    t = rw.sub(s.text, sig + r'\s*\{', 'FreeBlock *Backend_splitBlock(Backend *self, FreeBlock *fBlock, int num, size_t size, bool blockIsAligned, bool needAlignedBlock)\n{\n    size_t splitSize;', 1, 1,
+               name='sig; `if (size_t splitSize = e)` needs its declaration hoisted in C')
+    t = rw.sub(t, r'else if \(size_t splitSize = ([^{]*?)\) \{', r'else if ((splitSize = \1)) {', 1, 1, name='declaration in condition -> assignment in condition (evaluated at the same point)')
+    t = rw.fields(t, ['extMemPool'], 0)
+    t = rw.sub(t, r'\balignUp\(fBlock, slabSize\)', 'alignUp_FreeBlock(fBlock, slabSize)', 0, name='bind-template(T:=FreeBlock*)')
+    t = rw.sub(t, r'\b(\w+)->sizeTmp\b(?!\s*=[^=])', r'FB_RD_sizeTmp(\1)', 0, name='block field read -> FB_RD_sizeTmp (blocks are addresses in the harness)')
+    t = rw.methods(t, ['coalescAndPut'], 'STUB_Backend_', 0)
+    t = rw.sub(t, r'(?<![\w.>:])toAlignedBin\(', 'Backend_toAlignedBin(', 0, name='static method')
+    t = rw.sub(t, r'FreeBlock::markBlocks\(', 'FreeBlock_markBlocks(', 0, name='ns-strip')
+    t = member_calls(rw, t, ['initHeader'], 'FreeBlock_', 0)
+    t = malloc_asserts(rw, t)
+    t = rw.std(t)
+    out.append(t)
+    common.write(ctx, 'split.inc', '\n'.join(out) + '\n')
+    fired['splitBlock'] = rw.fired
+
+
+def extract_oom(ctx, sliced, fired):
+    """out-of-memory ladder: Backend::genericGetBlock, askMemFromOS, releaseMemInCaches, MemExtendingSema::wait/signal, BackendSync::blockConsumed/blockReleased/getNumOfMods"""
+    rw = Rewriter('oom')
+    out = []
+    for sig, what in ((r'enum (?=\{\s*minBinnedSize)', 'Backend::{minBinnedSize,maxBinned_SmallPage,maxBinned_HugePage}'), (r'enum (?=\{\s*VALID_BLOCK_IN_BIN)', 'Backend::VALID_BLOCK_IN_BIN'), (r'enum MemRegionType \{', 'MemRegionType')):
+        s = slice_block(BH, sig)
+        sliced.append('%s:%d %s' % (BH, s.line, what))
+        out.append(s.text + ';')
+    out.append('typedef enum MemRegionType MemRegionType;')
+    s = slice_block(SU, r'static inline T alignUp\s*\(T arg, uintptr_t alignment\)')
+    sliced.append('%s:%d alignUp<size_t>' % (SU, s.line))
+    t = rw.sub(s.text, r'static inline T alignUp\s*\(T arg, uintptr_t alignment\)', 'static inline size_t alignUp(size_t arg, uintptr_t alignment)', 1, 1, name='bind-template(T:=size_t)')
+    t = rw.sub(t, r'\bT\b', 'size_t', 0, name='bind-template(T:=size_t)')
+    out.append(rw.fcasts(t, ['size_t'], 1))
+    common.write(ctx, 'oom_types.inc', '\n'.join(out) + '\n')
+    out = []
+    # BackendSync
+    for name, sig, csig in (('blockConsumed', r'void blockConsumed\(\)', 'static void BackendSync_blockConsumed(BackendSync *self)'),
+                            ('blockReleased', r'void blockReleased\(\)', 'static void BackendSync_blockReleased(BackendSync *self)'),
+                            ('getNumOfMods', r'intptr_t getNumOfMods\(\) const', 'static intptr_t BackendSync_getNumOfMods(BackendSync *self)')):
+        s = slice_block(BH, sig, within=r'class BackendSync \{')
+        sliced.append('%s:%d BackendSync::%s' % (BH, s.line, name))
+        t = cxx2c.cpp_resolve(s.text, BMAC, name)
+        t = rw.sub(t, sig, csig, 1, 1, name='sig')
+        t = rw.fields(t, ['inFlyBlocks', 'binsModifications'], 0)
+        t = rw.atomics(t, ['inFlyBlocks', 'binsModifications'], 0)
+        t = rw.number_sites(t, name, by_kind=True)
+        t = rw.sub(t, r'suppress_unused_warning\(prev\);', 'RG_NOP();', 0, name='suppress_unused_warning -> RG_NOP')
+        t = malloc_asserts(rw, t)
+        out.append(rw.std(t))
+    # MemExtendingSema
+    for name, sig, csig in (('wait', r'bool wait\(\)', 'static bool MemExtendingSema_wait(MemExtendingSema *self)'), ('signal', r'void signal\(\)', 'static void MemExtendingSema_signal(MemExtendingSema *self)')):
+        s = slice_block(BH, sig, within=r'class MemExtendingSema \{')
+        sliced.append('%s:%d MemExtendingSema::%s' % (BH, s.line, name))
+        t = rw.sub(s.text, sig, csig, 1, 1, name='sig')
+        t = rw.sub(t, r'SpinWaitWhileEq\(active, prevCnt\);', 'STUB_SpinWaitWhileEq(&self->active, prevCnt);', 0, name='callee stub (spin until the word changes)')
+        t = rw.fields(t, ['active'], 0)
+        t = rw.atomics(t, ['active'], 0)
+        t = rw.number_sites(t, 'sema_' + name, by_kind=True)
+        t = rw.std(t)
+        if name == 'wait':
+            t = tag_loops(t, 'sema_wait', rw, expect=1)
+        out.append(t)
+    BFIELDS = ['extMemPool', 'bkndSync', 'memExtendingSema', 'maxRequestedSize', 'backendCleanCnt', 'freeSlabAlignedBins', 'freeLargeBlockBins']
+
+    def common_rules(t):
+        t = rw.fields(t, BFIELDS, 0)
+        t = rw.sub(t, r'self->bkndSync\.(getNumOfMods|blockReleased)\(', r'BackendSync_\1(&self->bkndSync', 0, name='member-object call x.m(..) -> C_m(&self->x, ..)')
+        t = rw.sub(t, r'self->bkndSync\.waitTillBlockReleased\(', 'STUB_BackendSync_waitTillBlockReleased(&self->bkndSync, ', 0, name='callee stub')
+        t = rw.sub(t, r'self->memExtendingSema\.(wait|signal)\(\)', r'MemExtendingSema_\1(&self->memExtendingSema)', 0, name='member-object call x.m(..) -> C_m(&self->x, ..)')
+        t = rw.sub(t, r'self->(freeSlabAlignedBins|freeLargeBlockBins)\.findBlock\(', r'STUB_IndexedBins_findBlock(&self->\1, ', 0, name='callee stub (contract of findBlock/getFromBin: NULL, or one block with one blockConsumed)')
+        t = rw.sub(t, r'self->extMemPool->(softCachesCleanup|hardCachesCleanup)\(', r'STUB_ExtMemoryPool_\1(self->extMemPool, ', 0, name='callee stub')
+        t = rw.sub(t, r', \)', ')', 0, name='call without arguments')
+        t = rw.atomics(t, ['backendCleanCnt'], 0, obj=r'self->')
+        t = rw.methods(t, ['askMemFromOS', 'releaseMemInCaches'], 'Backend_', 0)
+        t = rw.methods(t, ['requestBootstrapMem', 'scanCoalescQ', 'splitBlock', 'addNewRegion', 'releaseCachesToLimit', 'getMaxBinnedSize'], 'STUB_Backend_', 0)
+        t = rw.sub(t, r'\bsizeToBin\(', 'STUB_sizeToBin(', 0, name='callee stub')
+        t = rw.sub(t, r'AtomicUpdate\(self->maxRequestedSize, totalReqSize, MaxRequestComparator\(this\)\);', 'STUB_AtomicUpdate_maxRequestedSize(self, totalReqSize);', 0, name='callee stub (monotone maximum)')
+        t = malloc_asserts(rw, t)
+        return rw.std(t)
+    sig = r'FreeBlock \*Backend::releaseMemInCaches\(intptr_t startModifiedCnt,\s*int \*lockedBinsThreshold, int numOfLockedBins\)'
+    s = slice_block(BE, sig)
+    sliced.append('%s:%d Backend::releaseMemInCaches' % (BE, s.line))
+    t = rw.sub(s.text, sig, 'static FreeBlock *Backend_releaseMemInCaches(Backend *self, intptr_t startModifiedCnt, int *lockedBinsThreshold, int numOfLockedBins)', 1, 1, name='sig')
+    out.append(common_rules(t))
+    sig = r'FreeBlock \*Backend::askMemFromOS\(size_t blockSize, intptr_t startModifiedCnt,\s*int \*lockedBinsThreshold, int numOfLockedBins,\s*bool \*splittableRet, bool needSlabRegion\)'
+    s = slice_block(BE, sig)
+    sliced.append('%s:%d Backend::askMemFromOS' % (BE, s.line))
+    t = rw.sub(s.text, sig, 'static FreeBlock *Backend_askMemFromOS(Backend *self, size_t blockSize, intptr_t startModifiedCnt, int *lockedBinsThreshold, int numOfLockedBins, bool *splittableRet, bool needSlabRegion)', 1, 1, name='sig')
+    t = common_rules(t)
+    t = rw.number_sites(t, 'askMemFromOS', by_kind=True)
+    t = tag_loops(t, 'askMemFromOS', rw, expect=1)
+    out.append(t)
+    sig = r'FreeBlock \*Backend::genericGetBlock\(int num, size_t size, bool needAlignedBlock\)'
+    s = slice_block(BE, sig)
+    sliced.append('%s:%d Backend::genericGetBlock' % (BE, s.line))
+    t = rw.sub(s.text, sig, 'FreeBlock *Backend_genericGetBlock(Backend *self, int num, size_t size, bool needAlignedBlock)', 1, 1, name='sig')
+    t = common_rules(t)
+    t = rw.number_sites(t, 'genericGetBlock', by_kind=True)
+    t = tag_loops(t, 'genericGetBlock', rw, expect=2)
+    out.append(t)
+    common.write(ctx, 'oom.inc', '\n'.join(out) + '\n')
+    fired['oom'] = rw.fired
+
+
+def extract_region(ctx, sliced, fired):
+    """Backend::addNewRegion + findBlockInRegion (real arithmetic on the raw region), Backend::destroy (region list walk)"""
+    rw = Rewriter('region')
+    out = []
+    const_define(rw, sliced, TI, 'slabSize', out)
+    s = cxx2c.slice_stmt(TI, r'const size_t largeObjectAlignment\s*=')
+    sliced.append('%s:%d largeObjectAlignment' % (TI, s.line))
+    out.append(rw.sub(s.text, r'const size_t largeObjectAlignment = estimatedCacheLineSize;', '#define largeObjectAlignment ((size_t)(estimatedCacheLineSize))', 1, 1, name='const-global->#define'))
+    m = re.search(r'#if __powerpc64__ \|\| __ppc64__ \|\| __bgp__\nconst uint32_t estimatedCacheLineSize = \d+;\n#else\nconst uint32_t estimatedCacheLineSize =\s*(\d+);\n#endif', load(SU))
+    if not m:
+        raise ExtractionBreak('cannot parse estimatedCacheLineSize (x86-64 arm of the #if)')
+    sliced.append('%s:%d estimatedCacheLineSize' % (SU, cxx2c.line_of(load(SU), m.start())))
+    out.append('#define estimatedCacheLineSize %s' % m.group(1))
+    m = re.search(r'static const int numOfSlabAllocOnMiss = (\d+);', load(BH))
+    if not m:
+        raise ExtractionBreak('%s: constant numOfSlabAllocOnMiss not found' % BH)
+    out.append('#define numOfSlabAllocOnMiss (%s)' % m.group(1))
+    for sig, what in ((r'enum (?=\{\s*VALID_BLOCK_IN_BIN)', 'Backend::VALID_BLOCK_IN_BIN'), (r'enum MemRegionType \{', 'MemRegionType')):
+        s = slice_block(BH, sig)
+        sliced.append('%s:%d %s' % (BH, s.line, what))
+        out.append(s.text + ';')
+    out.append('typedef enum MemRegionType MemRegionType;')
+    for name in ('alignDown', 'alignUp'):
+        s = slice_block(SU, r'static inline T %s\s*\(T arg, uintptr_t alignment\)' % name)
+        sliced.append('%s:%d %s<uintptr_t>' % (SU, s.line, name))
+        t = rw.sub(s.text, r'static inline T %s\s*\(T arg, uintptr_t alignment\)' % name, 'static inline uintptr_t %s(uintptr_t arg, uintptr_t alignment)' % name, 1, 1, name='bind-template(T:=uintptr_t)')
+        t = rw.sub(t, r'\bT\b', 'uintptr_t', 0, name='bind-template(T:=uintptr_t)')
+        out.append(rw.fcasts(t, ['uintptr_t'], 1))
+    common.write(ctx, 'region_types.inc', '\n'.join(out) + '\n')
+    out = []
+
+    def region_fields(t):
+        t = rw.sub(t, r'\bregion->(\w+) = ([^;]*);', r'MR_WR_\1(region, \2);', 0, name='region header field write -> MR_WR_<f> (regions are addresses in the harness)')
+        t = rw.sub(t, r'\bregion->(\w+)\b', r'MR_RD_\1(region)', 0, name='region header field read -> MR_RD_<f>')
+        t = rw.sub(t, r'sizeof\(MemRegion\)', 'SIZEOF_MemRegion', 0, name='sizeof -> symbolic constant')
+        t = rw.sub(t, r'sizeof\(LastFreeBlock\)', 'SIZEOF_LastFreeBlock', 0, name='sizeof -> symbolic constant')
+        t = rw.sub(t, r'FreeBlock::minBlockSize', 'FreeBlock_minBlockSize', 0, name='ns-strip')
+        t = rw.sub(t, r'GuardedSize::', 'GuardedSize_', 0, name='ns-strip')
+        return t
+    sig = r'FreeBlock \*Backend::findBlockInRegion\(MemRegion \*region, size_t exactBlockSize\)'
+    s = slice_block(BE, sig)
+    sliced.append('%s:%d Backend::findBlockInRegion' % (BE, s.line))
+    t = rw.sub(s.text, sig, 'static FreeBlock *Backend_findBlockInRegion(Backend *self, MemRegion *region, size_t exactBlockSize)', 1, 1, name='sig')
+    t = rw.sub(t, r'(?s)static_assert\(.*?\);', 'RG_NOP();', 1, 1, name='static_assert dropped (its condition is a harness assumption on the symbolic sizeof)')
+    t = region_fields(t)
+    t = malloc_asserts(rw, t)
+    out.append(rw.std(t))
+    sig = r'FreeBlock \*Backend::addNewRegion\(size_t size, MemRegionType memRegType, bool addToBin\)'
+    s = slice_block(BE, sig)
+    sliced.append('%s:%d Backend::addNewRegion' % (BE, s.line))
+    t = rw.sub(s.text, sig, 'FreeBlock *Backend_addNewRegion(Backend *self, size_t size, MemRegionType memRegType, bool addToBin)', 1, 1, name='sig')
+    t = rw.sub(t, r'(?s)static_assert\(.*?\);', 'RG_NOP();', 1, 1, name='static_assert dropped')
+    t = rw.sub(t, r'\ballocRawMem\(rawSize\)', 'STUB_Backend_allocRawMem(self, &rawSize)', 1, 1, name='callee stub, reference parameter -> pointer')
+    t = rw.sub(t, r'\bfreeRawMem\(', 'STUB_Backend_freeRawMem(self, ', 0, name='callee stub')
+    t = rw.sub(t, r'\bregionList\.add\(', 'STUB_MemRegionList_add(&self->regionList, ', 0, name='callee stub')
+    t = rw.sub(t, r'\bstartUseBlock\(', 'STUB_Backend_startUseBlock(self, ', 0, name='callee stub')
+    t = rw.sub(t, r'\bbkndSync\.binsModified\(\);', 'STUB_binsModified(self);', 0, name='callee stub')
+    t = rw.sub(t, r'\bfindBlockInRegion\(', 'Backend_findBlockInRegion(self, ', 0, name='method')
+    t = rw.fields(t, ['extMemPool'], 0)
+    t = region_fields(t)
+    t = malloc_asserts(rw, t)
+    out.append(rw.std(t))
+    common.write(ctx, 'region.inc', '\n'.join(out) + '\n')
+    # Backend::destroy: the walk that gives every raw region back
+    sig = r'bool Backend::destroy\(\)'
+    s = slice_block(BE, sig)
+    sliced.append('%s:%d Backend::destroy' % (BE, s.line))
+    t = rw.sub(s.text, sig, 'bool Backend_destroy(Backend *self)', 1, 1, name='sig')
+    t = rw.sub(t, r'\bverify\(\);', 'RG_NOP();', 1, 1, name='debug verification -> RG_NOP')
+    t = rw.sub(t, r'\binUserPool\(\)', 'Backend_inUserPool(self)', 0, name='method')
+    t = rw.sub(t, r'\b(freeLargeBlockBins|freeSlabAlignedBins)\.reset\(\);', r'STUB_IndexedBins_reset(&self->\1);', 0, name='callee stub')
+    t = rw.sub(t, r'\bfreeRawMem\(', 'STUB_Backend_freeRawMem(self, ', 0, name='callee stub')
+    t = rw.fields(t, ['regionList'], 0)
+    t = rw.sub(t, r'self->regionList\.head->(next|allocSz|blockSz)\b', r'MR_RD_\1(self->regionList.head)', 0, name='region header field read -> MR_RD_<f>')
+    t = rw.std(t)
+    t = tag_loops(t, 'destroy', rw, expect=1)
+    out = [t]
+    for name, sig, csig in (('userPool', r'bool userPool\(\) const', 'static bool ExtMemoryPool_userPool(ExtMemoryPool *self)'), ('destroy', r'bool destroy\(\)', 'bool ExtMemoryPool_destroy(ExtMemoryPool *self)')):
+        s = slice_block(TI, sig, within=r'struct ExtMemoryPool \{')
+        sliced.append('%s:%d ExtMemoryPool::%s' % (TI, s.line, name))
+        t = rw.sub(s.text, sig, csig, 1, 1, name='sig')
+        t = rw.sub(t, r'\b(loc|allLocalCaches)\.reset\(\);', r'STUB_\1_reset(self);', 0, name='callee stub')
+        t = rw.sub(t, r'\btlsPointerKey\.destroy\(\)', 'STUB_tlsPointerKey_destroy(self)', 0, name='callee stub')
+        t = rw.sub(t, r'\bbackend\.destroy\(\)', 'Backend_destroy(&self->backend)', 0, name='member-object call x.m() -> C_m(&self->x)')
+        t = rw.sub(t, r'\buserPool\(\)', 'ExtMemoryPool_userPool(self)', 0, name='method')
+        t = rw.sub(t, r'\bisPoolValid\(\)', 'STUB_isPoolValid(self)', 0, name='debug-only method (defined under MALLOC_DEBUG) -> stub')
+        t = rw.fields(t, ['rawAlloc', 'rawFree', 'granularity'], 0)
+        t = malloc_asserts(rw, t)
+        out.append(rw.std(t))
+    s = slice_block(TI, r'inline bool Backend::inUserPool\(\) const')
+    sliced.append('%s:%d Backend::inUserPool' % (TI, s.line))
+    t = rw.sub(s.text, r'inline bool Backend::inUserPool\(\) const', 'static bool Backend_inUserPool(Backend *self)', 1, 1, name='sig')
+    t = rw.sub(t, r'\bextMemPool->userPool\(\)', 'ExtMemoryPool_userPool(self->extMemPool)', 1, 1, name='method')
+    out.insert(1, t)
+    out[0], out[1], out[2] = out[2], out[1], out[0]     # userPool, inUserPool, Backend::destroy, ExtMemoryPool::destroy
+    common.write(ctx, 'destroy.inc', '\n'.join(out) + '\n')
+    fired['region'] = rw.fired
+
+
+def extract_poolapi(ctx, sliced, fired):
+    """rml::pool_create_v1 / pool_destroy / pool_reset (frontend.cpp): argument validation and failure paths"""
+    rw = Rewriter('poolapi')
+    SA = 'include/oneapi/tbb/scalable_allocator.h'
+    m = re.search(r'struct MemPoolPolicy \{\s*enum \{\s*TBBMALLOC_POOL_VERSION = (\d+)\s*\};', load(SA))
+    if not m:
+        raise ExtractionBreak('%s: MemPoolPolicy::TBBMALLOC_POOL_VERSION not found' % SA)
+    out = ['#define MemPoolPolicy_TBBMALLOC_POOL_VERSION (%s)' % m.group(1)]
+    for name, sig, csig in (
+            ('pool_create_v1', r'rml::MemPoolError pool_create_v1\(intptr_t pool_id, const MemPoolPolicy \*policy,\s*rml::MemoryPool \*\*pool\)', 'int pool_create_v1(intptr_t pool_id, const MemPoolPolicy *policy, rml_MemoryPool **pool)'),
+            ('pool_destroy', r'bool pool_destroy\(rml::MemoryPool\* memPool\)', 'bool pool_destroy(rml_MemoryPool* memPool)'),
+            ('pool_reset', r'bool pool_reset\(rml::MemoryPool\* memPool\)', 'bool pool_reset(rml_MemoryPool* memPool)')):
+        s = slice_block(FE, sig)
+        sliced.append('%s:%d rml::%s' % (FE, s.line, name))
+        t = rw.sub(s.text, sig, csig, 1, 1, name='sig')
+        t = rw.sub(t, r'rml::internal::MemoryPool', 'MemoryPool', 1, name='ns-strip')
+        t = rw.sub(t, r'rml::MemoryPool', 'rml_MemoryPool', 0, name='ns-strip')
+        t = rw.sub(t, r'MemPoolPolicy::TBBMALLOC_POOL_VERSION', 'MemPoolPolicy_TBBMALLOC_POOL_VERSION', 0, name='ns-strip')
+        t = rw.casts(t, 0)
+        t = rw.sub(t, r'\bmemset\(', 'VERIF_memset(', 0, name='memset -> recording stub')
+        t = member_calls(rw, t, ['init', 'destroy', 'reset'], 'STUB_MemoryPool_', 0)
+        t = rw.sub(t, r'\b(isMallocInitialized|doInitialization)\(\)', r'STUB_\1()', 0, name='callee stub')
+        out.append(rw.std(t))
+    common.write(ctx, 'poolapi.inc', '\n'.join(out) + '\n')
+    fired['poolapi'] = rw.fired
 
 
 def build(ctx):
     sliced, fired = extract(ctx)
     extract_remap(ctx, sliced, fired)
+    extract_freeblock(ctx, sliced, fired)
+    extract_getfrombin(ctx, sliced, fired)
+    extract_split(ctx, sliced, fired)
+    extract_oom(ctx, sliced, fired)
+    extract_region(ctx, sliced, fired)
+    extract_poolapi(ctx, sliced, fired)
     C = os.path.join(HERE, 'c18.c')
     jobs = []
     for w in (8, 16):
@@ -136,28 +568,72 @@ def build(ctx):
                         checks=['--bounds-check', '--pointer-check', '--div-by-zero-check', '--no-signed-overflow-check'],   # no signed-overflow check: uint8/16 operands promote to int, an artefact of the narrowed type
                         target='scalable_calloc (size_t := uint%d_t)' % w, source=FE))
     jobs.append(Job('calloc.heuristic.w64', C, 'h_calloc64', route='LF', defines=['CALLOC64'], timeout=600, target='scalable_calloc, 64 bit: control flow of the overflow guard (which products reach the exact check; result plumbing)', source=FE))
+    jobs.append(Job('oom.genericGetBlock', C, 'h_oom', route='LC', loops=True, nloops=4, defines=['OOM'], timeout=600,
+                    target='Backend::genericGetBlock + askMemFromOS + releaseMemInCaches + MemExtendingSema::wait/signal + BackendSync::blockConsumed/blockReleased (any number of retries, raw allocation refused at any call)', source=BE))
+    jobs.append(Job('region.addNewRegion', C, 'h_region', route='LF', defines=['REGION'], timeout=300, solver='cadical', inputs=['IN_size', 'IN_type', 'IN_base', 'IN_raw', 'IN_fixed'],
+                    target='Backend::addNewRegion + findBlockInRegion + alignUp/alignDown (raw allocation refused / too small / usable; any base address, any sizeof(MemRegion), sizeof(LastFreeBlock))', source=BE))
+    jobs.append(Job('pool.destroy', C, 'h_destroy', route='LC', loops=True, nloops=1, defines=['DESTROY'], timeout=300,
+                    target='ExtMemoryPool::destroy + Backend::destroy (region list walk, any number of regions) + userPool/inUserPool', source=BE))
+    jobs.append(Job('largeobj.size_guard', C, 'h_lloc', route='LF', defines=['REMAP', 'LLOC'], timeout=600, inputs=['IN_size', 'IN_alignment'],
+                    target='MemoryPool::getFromLLOCache: size + headers + alignment, alignToBin and the wrapped-size guard (with the real LargeObjectCache::alignToBin, alignUp, log2)', source=FE))
+    jobs.append(Job('pool.create_destroy.args', C, 'h_poolapi', route='LF', defines=['POOLAPI'], timeout=300, target='rml::pool_create_v1 + pool_destroy + pool_reset (policy validation, failure paths)', source=FE))
     jobs += [
         Job('posix_memalign.args', C, 'h_memalign', route='LF', defines=['API'], target='scalable_posix_memalign + isPowerOfTwoAtLeast', source=FE),
         Job('aligned_malloc.args', C, 'h_aligned_malloc', route='LF', defines=['API'], target='scalable_aligned_malloc + isPowerOfTwo', source=FE),
         Job('aligned_realloc.args', C, 'h_aligned_realloc', route='LF', defines=['API'], target='scalable_aligned_realloc', source=FE),
         Job('remap.size_guard', C, 'h_remap', route='LF', defines=['REMAP'], target='Backend::remap: size arithmetic + wrap-around guard (with the real LargeObjectCache::alignToBin, alignUp, log2)', source=BE, timeout=600),
         Job('realloc.args', C, 'h_realloc', route='LF', defines=['API'], target='scalable_realloc', source=FE),
+        Job('bin.getFromBin', C, 'h_getfrombin', route='LC', loops=True, nloops=1, defines=['GETBIN'], timeout=300, inputs=['IN_size', 'IN_addr', 'IN_S', 'IN_needAligned', 'IN_alignedBin'],
+            target='Backend::IndexedBins::getFromBin + FreeBlock::tryLockBlock/rightNeig/setMeFree/setLeftFree + Bin::empty + BackendSync::blockConsumed (any bin contents, any block address and size)', source=BE),
+    ]
+    for case, what in ((1, 'special: slab request cut from the middle of an unaligned block (fixed pool)'), (2, 'slab request cut from the right end of a slab-aligned block'), (3, 'one block of any size cut from the left end')):
+        jobs.append(Job('backend.splitBlock.case%d' % case, C, 'h_split', route='LW', unwind=14, defines=['SPLIT', 'SPLIT_CASE=%d' % case], timeout=300, inputs=['IN_addr', 'IN_S', 'IN_size', 'IN_num', 'IN_blockAligned', 'IN_needAligned'],
+                        target='Backend::splitBlock (%s) + toAlignedBin + FreeBlock::markBlocks/initHeader + alignUp (any block address and size; 1..numOfSlabAllocOnMiss slabs)' % what, source=BE))
+    jobs += [
     ]
     return {
         'jobs': jobs, 'sliced': sliced, 'fired': fired,
-        'trusted': ['internalMalloc / allocateAligned / reallocAligned / internalFree / scalable_free: stubs that may return NULL (reallocAligned is proved under C17)', 'errno modelled as a ghost variable'],
-        'drops': ['extern "C"', 'static_assert', 'errno -> VERIF_errno', 'memset -> recording stub'],
-        'not_decided': ['scalable_calloc at 64 bits: the exact overflow test nobj*size / nobj != size (64-bit multiply and divide are beyond the SAT back ends; proved for 16- and 32-bit size_t as a bounded stand-in)',
-                        'failure of the k-th OS/raw allocation inside slab refill, back-reference growth, cache misses', 'memory pools: raw-region accounting (pool_destroy/pool_reset), pool_identify',
-                        'getFromLLOCache wrap guard'],
-        'assumptions': [],
+        'trusted': ['internalMalloc / allocateAligned / reallocAligned / internalFree / scalable_free: stubs that may return NULL (reallocAligned is proved under C17)', 'errno modelled as a ghost variable',
+                    'GuardedSize::tryLock / unlock / initLocked (backend.cpp:169-191): atomic specification supplied by the harness (tryLock: returns the old word and stores the lock state iff the word held a size; unlock: stores the size; initLocked: stores LOCKED); their CAS loop is not proved here',
+                    'bin.getFromBin: Bin::removeBlock, BitMask::set stubs (recording); MallocMutex try/blocking lock as a held-counter; the bin list is an arbitrary sequence of candidate blocks (curr->next yields NULL or a fresh arbitrary block)',
+                    'backend.splitBlock.*: coalescAndPut is a recording stub that checks its precondition (locked delimiting size words, size, placement); what coalescAndPut/doCoalesc then do is not proved',
+                    'oom.genericGetBlock: IndexedBins::findBlock (NULL, or one block + one blockConsumed - the contract proved for getFromBin), addNewRegion (NULL = refused | VALID_BLOCK_IN_BIN | block + one blockConsumed), splitBlock, scanCoalescQ / softCachesCleanup / hardCachesCleanup / waitTillBlockReleased (arbitrary bool), requestBootstrapMem, releaseCachesToLimit, sizeToBin, AtomicUpdate(maxRequestedSize) (monotone maximum), SpinWaitWhileEq: stubs',
+                    'region.addNewRegion: allocRawMem (refuses, or returns real memory [base, base+size\') with size\' >= request for growing pools / any size for a fixed pool), freeRawMem, MemRegionList::add, startUseBlock, binsModified: recording stubs',
+                    'pool.destroy: freeRawMem (recording; may report failure), tlsPointerKey.destroy, cache resets: stubs',
+                    'pool.create_destroy.args: MemoryPool::init/destroy/reset, isMallocInitialized, doInitialization: stubs with arbitrary results; error-code names bound to distinct harness constants'],
+        'drops': ['extern "C"', 'static_assert', 'errno -> VERIF_errno', 'memset -> recording stub', 'memory orders (SC assumed)', 'Backend::verify() (debug) -> RG_NOP', 'suppress_unused_warning -> RG_NOP',
+                  '`goto try_next` in getFromBin -> RETRY_FROM: the restart state is a proof obligation, the continuation is cut (induction over restarts; termination not claimed)',
+                  'scoped_lock destructor made explicit at scope exits (UNLOCK_IF_TAKEN)', 'block / region header field accesses -> FB_WR_sizeTmp, FB_RD_sizeTmp, BIN_NEXT, MR_RD_*/MR_WR_* accessors (blocks and regions are addresses in the harness)',
+                  'sizeof(MemRegion), sizeof(LastFreeBlock), sizeof(LargeMemoryBlock), sizeof(LargeObjectHdr) -> symbolic constants (8..4096, word multiples)',
+                  '`else if (size_t splitSize = e)` -> declaration hoisted, assignment in the condition'],
+        'not_decided': ['scalable_calloc at 64 bits: the exact overflow test nobj*size / nobj != size (64-bit multiply and divide are beyond the SAT back ends; proved for 8- and 16-bit size_t as a bounded stand-in)',
+                        'coalescAndPut / doCoalesc / coalescAndPutList (merging remainders with neighbours and filing them: setMeFree/setLeftFree of the merged block), CoalRequestQ; GuardedSize CAS loop',
+                        'startUseBlock, MemRegionList::add/remove, allocRawMem/freeRawMem themselves (callback invocation, huge-page fallbacks, totalMemSize accounting); Backend::reset / MemoryPool::reset (pool_reset); releaseRegion from coalescing (a raw region given back while in use)',
+                        'MemoryPool::init / ExtMemoryPool::init failure paths (TLS key creation), MemoryPool::destroy (large-object list release), pool_identify, internalPoolMalloc NULL propagation, memory_pool.h C++ wrappers (bad_alloc)',
+                        'back-reference table growth failure, large-object cache misses, slab refill (getEmptyBlock) under a failing backend',
+                        'that a bin really contains only free blocks whose size words agree (heap representation invariant across operations): assumed per candidate in bin.getFromBin, established for fresh regions only through the startUseBlock stub',
+                        'termination of the retry loops (goto try_next, genericGetBlock for(;;), MemExtendingSema::wait)',
+                        'multi-thread interleavings beyond the rely/guarantee treatment of the size words, inFlyBlocks and the semaphore word (SC atomics)'],
+        'assumptions': ['block / region addresses lie below 2^56 and [addr, addr+size+header) does not wrap (user-space addresses; also keeps CBMC pointer-typed field offsets exact)',
+                        'a free block in a bin is at least FreeBlock::minBlockSize bytes and is followed by a block header (regions end in a LastFreeBlock)',
+                        'callers of genericGetBlock: slab-aligned requests are num*slabSize with 1 <= num <= numOfSlabAllocOnMiss (getSlabBlock); any other request is one block of any size',
+                        'splitBlock entry state = getFromBin exit state (fit, locked size words, sizeTmp) or a fresh region block; slab request from an unaligned block only in fixed pools; slabAligned attribute means the right end is slab aligned',
+                        'raw allocator contract: on success real memory; growing pools/OS return at least the requested size; a fixed pool is asked only by requestBootstrapMem (slab region)',
+                        'sizes reaching addNewRegion are <= SIZE_MAX - 2^16 (proved for getFromLLOCache results in largeobj.size_guard; other callers pass small sizes)',
+                        'rely for size words: a word not held by this thread is free (== block size) or held (LOCKED/COAL_BLOCK) by another thread; a held word is changed by nobody else',
+                        'large-object alignment passed to getFromLLOCache is a power of two >= 64'],
     }
 
 
 def replay(ctx, jobname, failure):
     exe = native.build([os.path.join(HERE, 'c18_replay.cpp')], os.path.join(ctx.work, 'c18_replay'),
                        flags=['-fno-access-control', '-I', os.path.join(ctx.repo, 'src/tbbmalloc'), '-I', os.path.join(ctx.repo, 'src'), '-D__TBBMALLOC_BUILD=1', '-ldl'])
-    extra = [str(failure.get('inputs', {}).get('IN_newSize'))] if jobname == 'remap.size_guard' and failure.get('inputs', {}).get('IN_newSize') else []
+    ins = failure.get('inputs', {}) or {}
+    extra = [str(ins.get('IN_newSize'))] if jobname == 'remap.size_guard' and ins.get('IN_newSize') else []
+    if jobname == 'bin.getFromBin':
+        extra = [str(ins.get('IN_addr', 0) or 0), str(ins.get('IN_S', 0) or 0), str(ins.get('IN_size', 0) or 0)]
+    elif jobname not in ('remap.size_guard',) and not jobname.startswith(('calloc', 'posix_memalign', 'aligned_', 'realloc')):
+        return {'reproduced': False, 'detail': 'no native recipe for this job (the counterexample is in the replay file); seeded/C18-3/demo.cpp is a public-API scenario for the backend jobs'}
     rc, out = native.run([exe, jobname] + extra, timeout=120)
     rep = {'cmd': exe + ' ' + jobname, 'rc': rc, 'output': out[-1500:], 'reproduced': False, 'detail': 'native search found no failing input'}
     m = re.search(r'REPRODUCED (.*)', out)
